@@ -41,6 +41,7 @@
 /* ---- transfer log around the library's own vrw.c ------------------------------------------------ */
 #define TLOG_MAX 4096
 static int   tracing;
+static long  keep_max = 1200;          /* byte-level call records only for transfers up to this size */
 static int   tlog_on;
 static int   tlog_n;
 static long  tlog_len[TLOG_MAX];       /* requested length of each Hread/Hwrite */
@@ -90,12 +91,13 @@ static int32 vid[NV];
 static int32 vref[NV];
 static char  fname[600];
 
+static int hexv(char c) { return c >= '0' && c <= '9' ? c - '0' : c >= 'a' && c <= 'f' ? c - 'a' + 10 : c >= 'A' && c <= 'F' ? c - 'A' + 10 : 0; }
 static long unhex(const char *s, unsigned char *out)
 {
     long n = 0;
     if (s[0] == '-') return 0;
     while (s[0] && s[1] && s[0] != ';' && s[0] != '\n') {
-        unsigned v; sscanf(s, "%2x", &v); out[n++] = (unsigned char)v; s += 2;
+        out[n++] = (unsigned char)(hexv(s[0]) * 16 + hexv(s[1])); s += 2;
     }
     return n;
 }
@@ -272,9 +274,9 @@ static void run_history(const char *dir, char **lines, long *lnos, long nlines)
                 HQueryposition(vs->aid, &pos);
                 printf("MC %ld vswrite %d %ld %ld %u %d %d", ln, (int)vs->interlace, b, a, (unsigned)Vtbufsize, (int)pos, (int)vs->nvertices);
                 pwl(&vs->wlist);
-                if (dl <= 6000) phex(exact, dl); else printf(" -");
+                if (dl <= keep_max) phex(exact, dl); else printf(" -");
                 printf("\n");
-                tlog_on = 1; tlog_n = 0; tlog_dlen = 0; tlog_keep = dl <= 6000;
+                tlog_on = 1; tlog_n = 0; tlog_dlen = 0; tlog_keep = dl <= keep_max;
             }
             else vs = NULL;
             int32 r = VSwrite(vid[v], exact, (int32)a, (int32)b);
@@ -317,7 +319,7 @@ static void run_history(const char *dir, char **lines, long *lnos, long nlines)
             memset(out, 0xEE, sz ? sz : 1);
             int tr = tracing && vs && vs->wlist.n > 0 && vs->nvertices > 0 && vs->aid != 0 && vs->aid != FAIL && a > 0;
             unsigned vtb0 = Vtbufsize;
-            if (tr) { tlog_on = 1; tlog_n = 0; tlog_dlen = 0; tlog_keep = a * (long)vs->wlist.ivsize <= 6000; }
+            if (tr) { tlog_on = 1; tlog_n = 0; tlog_dlen = 0; tlog_keep = a * (long)vs->wlist.ivsize <= keep_max; }
             int32 r = VSread(vid[v], out, (int32)a, (int32)b);
             if (tr) {
                 tlog_on = 0;
